@@ -60,9 +60,10 @@ m = {"version": 1, "setup_cmd": "./setup.sh",
                  {"name": "harness", "path": "harness", "serves_properties": sorted(P), "kind_free_text": "Python: generators, implementation runners, case writers evaluated by coqc/vm_compute, property oracles, evidence"}],
      "checks": [], "not_applicable": [],
      "notes": "Every check: make (full .vo build, no-op when up to date) -> coqc PCxx.v (theorems re-checked, Print Assumptions captured) -> correspondence of the Coq model with /repo's working tree -> property oracles on the implementation. See DESIGN.md."}
+DONE = open(f"{V}/tools/done.txt").read().split()
 for pid in sorted(P):
     text, tech, ref = P[pid]
-    have = os.path.exists(f"{V}/harness/{pid.lower()}.py") and os.path.exists(f"{V}/coq/theories/P{pid}.v")
+    have = pid in DONE and os.path.exists(f"{V}/harness/{pid.lower()}.py") and os.path.exists(f"{V}/coq/theories/P{pid}.v")
     if have:
         m["checks"].append({"property_id": pid, "quick_cmd": f"./check {pid} quick", "thorough_cmd": f"./check {pid} thorough",
                             "evidence_file": f"/verif/evidence/{pid}.json", "replay_cmd_template": f"./check {pid} quick --replay {{path}}",
